@@ -409,6 +409,21 @@ pub fn run(name: &str) -> Option<bool> {
             let p = build_options(&o);
             crate::outcome::run(&p, &bytes(&["--bpaf-complete-rev=xyz", "-f"])).is_value()
         }
+        // C06: after the first repair of F18 an adjacent group with a defaulted word member
+        // (`-a [Y]`, Y under fallback) took the default for `-a x` and left the invalid `x` to the
+        // next positional
+        "adjacent_default_masks_adjacent_invalid_word" => {
+            let group = Spec::Adj(vec![
+                item(1, Names::short('a'), Leaf::ReqFlag),
+                Spec::wrap(W::Fallback, 3, pos(2, Ty::U32)),
+            ]);
+            let o = OptSpec::plain(Spec::Seq(vec![
+                Spec::wrap(W::Many { catch: false }, 4, group),
+                Spec::wrap(W::Many { catch: false }, 6, pos(5, Ty::Str)),
+            ]));
+            let p = build_options(&o);
+            crate::outcome::run(&p, &bytes(&["-a", "x"])).is_value()
+        }
         _ => return None,
     })
 }
